@@ -629,9 +629,20 @@ func resolveAllProtocolChanges(newEnv, oldEnv *Environment, context *EvolutionCo
 				continue
 			}
 
-			if protocolChange := compareProtocolDefinitions(newProt, oldProt, context); protocolChange != nil {
+			protocolChange := compareProtocolDefinitions(newProt, oldProt, context)
+			previousSchema := GetProtocolSchemaString(oldProt, oldEnv.SymbolTable)
+			if protocolChange == nil && previousSchema != GetProtocolSchemaString(newProt, newEnv.SymbolTable) {
+				// Same encoding but a different schema text (e.g. a type renamed through an alias):
+				// streams of the old version still have to be recognized by their schema
+				protocolChange = &ProtocolChange{
+					DefinitionPair: DefinitionPair{oldProt, newProt},
+					StepChanges:    make([]TypeChange, len(newProt.Sequence)),
+				}
+			}
+
+			if protocolChange != nil {
 				// Annotate the ProtocolChange with the Old ProtocolDefinition schema string
-				protocolChange.PreviousSchema = GetProtocolSchemaString(oldProt, oldEnv.SymbolTable)
+				protocolChange.PreviousSchema = previousSchema
 				allProtocolChanges[oldProt.GetQualifiedName()] = protocolChange
 			}
 		}
